@@ -37,6 +37,7 @@ theorem step_history (fixed : Bool) (s s' : St) (h : step fixed s = some s') : h
       split at h
       · cases hk : p.kind with
         | bitmap id => rw [hk] at h; simp only at h; injection h with h; subst h; simp [history, hp, ids, hk]
+        | quiet => rw [hk] at h; simp only at h; injection h with h; subst h; simp [history, hp, ids, hk]
         | ultimatum => rw [hk] at h; simp only at h; injection h with h; subst h; simp [history, hp, ids, hk]
         | badRdp => rw [hk] at h; simp only at h; injection h with h; subst h; simp [history, hp, ids, hk]
         | badIo => rw [hk] at h; simp only at h; injection h with h; subst h; simp [history, hp, ids, hk]
@@ -134,6 +135,7 @@ theorem step_measure (s s' : St) (h : step true s = some s') : s'.pc = .done ∨
       split at h
       · cases hk : p.kind with
         | bitmap id => rw [hk] at h; simp only at h; injection h with h; subst h; right; simp [measure, hpc, hp]; omega
+        | quiet => rw [hk] at h; simp only at h; injection h with h; subst h; right; simp [measure, hpc, hp]; omega
         | ultimatum => rw [hk] at h; simp only at h; injection h with h; subst h; left; rfl
         | badRdp => rw [hk] at h; simp only at h; injection h with h; subst h; left; rfl
         | badIo => rw [hk] at h; simp only at h; injection h with h; subst h; left; rfl
@@ -187,12 +189,13 @@ theorem c20_stops (s : St) (hc : s.closed = true) : (run true (measure s + 1) s)
     (see `step`); for the record: -/
 theorem c20_terminal_pdu (s : St) (p : Pdu) (rest : List Pdu)
     (hpc : s.pc = .rd) (hp : s.pdus = p :: rest) (hb : p.len ≤ s.buf)
-    (hnb : ∀ i, p.kind ≠ .bitmap i) : ∃ s', step true s = some s' ∧ s'.pc = .done := by
+    (hnb : ∀ i, p.kind ≠ .bitmap i) (hnq : p.kind ≠ .quiet) : ∃ s', step true s = some s' ∧ s'.pc = .done := by
   unfold step
   rw [hpc, hp]
   simp only [hb, if_true]
   cases hkk : p.kind with
   | bitmap i => exact absurd hkk (hnb i)
+  | quiet => exact absurd hkk hnq
   | ultimatum => exact ⟨_, rfl, rfl⟩
   | badRdp => exact ⟨_, rfl, rfl⟩
   | badIo => exact ⟨_, rfl, rfl⟩
